@@ -29,7 +29,9 @@ impl<'s, 'a: 's> Cursor<'a> {
     #[inline]
     pub fn clone_with_pos(&'s self, pos: usize) -> Cursor<'a> {
         Cursor {
-            buf: self.buf,
+            // when a window is open `self.buf` is only the window's view;
+            // the clone must see the whole buffer
+            buf: self.orig.unwrap_or(self.buf),
             pos,
             orig: None,
         }
